@@ -300,10 +300,84 @@ func idiomSelect(j *CtxJudge, r *Resolver, sel *ssa.Select) (bool, string) {
 }
 
 // idiom (b)
+// spawnInfo: how the function holding a blocking site is started, and what a
+// channel value of that function is in the function that started it.
+type spawnInfo struct {
+	spawner *ssa.Function
+	goIn    *ssa.Go
+}
+
+// spawnsOf: the go statements that start fn: for a closure, in its parent;
+// for a named function, its static callers (all of which must be go
+// statements). nil when fn is (also) called inline.
+func spawnsOf(p *Prog, fn *ssa.Function) []spawnInfo {
+	var out []spawnInfo
+	if par := fn.Parent(); par != nil {
+		allInstrs(par, func(in ssa.Instruction) {
+			if g, ok := in.(*ssa.Go); ok {
+				if mc, ok := g.Call.Value.(*ssa.MakeClosure); ok && mc.Fn == fn {
+					out = append(out, spawnInfo{par, g})
+				}
+			}
+		})
+		return out
+	}
+	for _, ci := range staticCallers(p, fn) {
+		g, isGo := ci.(*ssa.Go)
+		if !isGo {
+			return nil
+		}
+		out = append(out, spawnInfo{g.Parent(), g})
+	}
+	return out
+}
+
+// chanInSpawner: the channel value ch of fn as a value of the spawner (a
+// captured variable's cell, or the argument of the go statement), with the
+// make(chan) it denotes when that is unique.
+func chanInSpawner(p *Prog, r *Resolver, fn *ssa.Function, sp spawnInfo, ch ssa.Value) (cell *ssa.Alloc, val ssa.Value, mk *ssa.MakeChan) {
+	if c := cellOf(r, ch); c != nil {
+		cell = c
+		stores := r.cellStores(c)
+		if len(stores) == 1 {
+			mk, _ = stores[0].Val.(*ssa.MakeChan)
+		}
+		return
+	}
+	if m, ok := strip(ch).(*ssa.MakeChan); ok {
+		return nil, m, m
+	}
+	if prm, ok := strip(ch).(*ssa.Parameter); ok && prm.Parent() == fn {
+		for i, q := range fn.Params {
+			if q == prm && i < len(sp.goIn.Call.Args) {
+				a := sp.goIn.Call.Args[i]
+				sr := NewResolver(p)
+				if c := cellOf(sr, a); c != nil {
+					cell = c
+					stores := sr.cellStores(c)
+					if len(stores) == 1 {
+						mk, _ = stores[0].Val.(*ssa.MakeChan)
+					}
+					return cell, a, mk
+				}
+				val = strip(a)
+				if ct, isCT := val.(*ssa.ChangeType); isCT {
+					val = ct.X
+				}
+				mk, _ = val.(*ssa.MakeChan)
+				return nil, val, mk
+			}
+		}
+	}
+	return
+}
+
 func idiomBufferedSend(r *Resolver, snd *ssa.Send, cone *Cone) (bool, string) {
+	p := r.P
 	fn := snd.Parent()
-	cell := cellOf(r, snd.Chan)
+	sps := spawnsOf(p, fn)
 	var mk *ssa.MakeChan
+	cell := cellOf(r, snd.Chan)
 	if cell != nil {
 		stores := r.cellStores(cell)
 		if len(stores) == 1 {
@@ -311,6 +385,8 @@ func idiomBufferedSend(r *Resolver, snd *ssa.Send, cone *Cone) (bool, string) {
 		}
 	} else if m, ok := snd.Chan.(*ssa.MakeChan); ok {
 		mk = m
+	} else if len(sps) == 1 {
+		_, _, mk = chanInSpawner(p, r, fn, sps[0], snd.Chan)
 	}
 	if mk == nil {
 		return false, "bare channel send with no cancellation alternative on a channel not created locally: if the receiver has stopped and the buffer is full the worker blocks here for ever"
@@ -325,7 +401,7 @@ func idiomBufferedSend(r *Resolver, snd *ssa.Send, cone *Cone) (bool, string) {
 	loop := false
 	allInstrs(fn, func(in ssa.Instruction) {
 		if s2, ok := in.(*ssa.Send); ok {
-			if c2 := cellOf(r, s2.Chan); (c2 != nil && c2 == cell) || s2.Chan == mk {
+			if c2 := cellOf(r, s2.Chan); (c2 != nil && c2 == cell) || s2.Chan == ssa.Value(mk) || (cell == nil && strip(s2.Chan) == strip(snd.Chan)) {
 				sends++
 				if inLoop(in) {
 					loop = true
@@ -337,91 +413,101 @@ func idiomBufferedSend(r *Resolver, snd *ssa.Send, cone *Cone) (bool, string) {
 		return false, fmt.Sprintf("bare send: %d send(s) (in loop: %v) into a channel of capacity %d", sends, loop, capN)
 	}
 	// the sending function must be a goroutine spawned once (Go not in a loop)
-	if fn.Parent() != nil {
-		once := true
-		found := false
-		allInstrs(fn.Parent(), func(in ssa.Instruction) {
-			if g, ok := in.(*ssa.Go); ok {
-				if mc, ok := g.Call.Value.(*ssa.MakeClosure); ok && mc.Fn == fn {
-					found = true
-					if inLoop(in) {
-						once = false
-					}
-				}
+	if fn.Parent() != nil || mk.Parent() != fn {
+		if mk.Parent() != fn && len(sps) != 1 {
+			return false, "bare send on a channel created elsewhere by a function that is not started exactly once as a goroutine"
+		}
+		for _, sp := range sps {
+			if inLoop(sp.goIn) {
+				return false, "bare send from a goroutine spawned in a loop: capacity may be exceeded"
 			}
-		})
-		if found && !once {
-			return false, "bare send from a goroutine spawned in a loop: capacity may be exceeded"
+		}
+		// other senders on the same channel in the spawner would compete for the buffer
+		if mk.Parent() != fn {
+			others := 0
+			allInstrs(mk.Parent(), func(in ssa.Instruction) {
+				if s2, ok := in.(*ssa.Send); ok && strip(s2.Chan) == ssa.Value(mk) {
+					others++
+				}
+			})
+			if int64(sends+others) > capN {
+				return false, fmt.Sprintf("%d send(s) in the goroutine plus %d in its spawner into a channel of capacity %d", sends, others, capN)
+			}
 		}
 	}
-	return true, fmt.Sprintf("idiom (b): %d send(s), none in a loop, into a locally created channel of capacity %d: the send never blocks", sends, capN)
+	return true, fmt.Sprintf("idiom (b): %d send(s), none in a loop, into a channel of capacity %d created once for this goroutine: the send never blocks", sends, capN)
 }
 
 // idiom (e)
 func idiomAwaitedOpen(j *CtxJudge, r *Resolver, s BSite, cone *Cone) (bool, string) {
+	p := r.P
 	fn := s.Fn
-	par := fn.Parent()
-	if par == nil {
-		return false, "blocking open executed inline: a FIFO without writer blocks the worker with no way to cancel"
-	}
-	// fn must be started with go in its parent
-	var goIn *ssa.Go
-	allInstrs(par, func(in ssa.Instruction) {
-		if g, ok := in.(*ssa.Go); ok {
-			if mc, ok := g.Call.Value.(*ssa.MakeClosure); ok && mc.Fn == fn {
-				goIn = g
-			}
+	sps := spawnsOf(p, fn)
+	if len(sps) == 0 {
+		if fn.Parent() == nil {
+			return false, "blocking open executed inline: a FIFO without writer blocks the worker with no way to cancel"
 		}
-	})
-	if goIn == nil {
 		return false, "blocking open in a closure that is not started as a goroutine"
 	}
-	// the closure signals completion by closing / sending on a captured channel
-	var sig *ssa.Alloc
+	// the goroutine signals completion by closing / sending on a channel
+	var sigCh ssa.Value
 	allInstrs(fn, func(in ssa.Instruction) {
 		switch x := in.(type) {
 		case *ssa.Call:
 			if b, ok := x.Call.Value.(*ssa.Builtin); ok && b.Name() == "close" && len(x.Call.Args) == 1 {
-				if cl := cellOf(r, x.Call.Args[0]); cl != nil {
-					sig = cl
-				}
+				sigCh = x.Call.Args[0]
 			}
 		case *ssa.Send:
-			if cl := cellOf(r, x.Chan); cl != nil {
-				sig = cl
-			}
+			sigCh = x.Chan
 		}
 	})
-	if sig == nil {
+	if sigCh == nil {
 		return false, "goroutine performing the blocking open never signals completion"
 	}
-	// the parent awaits it in an idiom-(a) select after the go statement
-	pr := NewResolver(r.P)
-	var okSel *ssa.Select
 	why := ""
-	allInstrs(par, func(in ssa.Instruction) {
-		sel, ok := in.(*ssa.Select)
-		if !ok || !sel.Blocking {
-			return
+	var okSel *ssa.Select
+	for _, sp := range sps {
+		cell, val, _ := chanInSpawner(p, r, fn, sp, sigCh)
+		if cell == nil && val == nil {
+			return false, "goroutine performing the blocking open never signals completion on a channel its starter can await"
 		}
-		hasSig := false
-		for _, st := range sel.States {
-			if st.Dir == types.RecvOnly && cellOf(pr, st.Chan) == sig {
-				hasSig = true
+		// the starter awaits it in an idiom-(a) select after the go statement
+		pr := NewResolver(p)
+		okSel = nil
+		allInstrs(sp.spawner, func(in ssa.Instruction) {
+			sel, ok := in.(*ssa.Select)
+			if !ok || !sel.Blocking {
+				return
 			}
+			hasSig := false
+			for _, st := range sel.States {
+				if st.Dir != types.RecvOnly {
+					continue
+				}
+				if cell != nil && cellOf(pr, st.Chan) == cell {
+					hasSig = true
+				}
+				sv := strip(st.Chan)
+				if ct, isCT := sv.(*ssa.ChangeType); isCT {
+					sv = ct.X
+				}
+				if cell == nil && val != nil && sv == val {
+					hasSig = true
+				}
+			}
+			if !hasSig {
+				return
+			}
+			if ok, w := idiomSelect(j, pr, sel); ok && dominatesInstr(sp.goIn, sel) {
+				okSel = sel
+				why = w
+			}
+		})
+		if okSel == nil {
+			return false, "no cancellable select in the starter awaits the completion of the goroutine performing the blocking open"
 		}
-		if !hasSig {
-			return
-		}
-		if ok, w := idiomSelect(j, pr, sel); ok && dominatesInstr(goIn, sel) {
-			okSel = sel
-			why = w
-		}
-	})
-	if okSel == nil {
-		return false, "no cancellable select in the parent awaits the completion of the goroutine performing the blocking open"
 	}
-	return true, "idiom (e): open runs in a spawned goroutine that signals on a captured channel; the worker awaits it at " + r.P.InstrPos(okSel) + " with " + why
+	return true, "idiom (e): open runs in a spawned goroutine that signals on a channel; its starter awaits it at " + r.P.InstrPos(okSel) + " with " + why
 }
 
 
@@ -484,20 +570,17 @@ func fileClosedOnCancel(j *CtxJudge, p *Prog, fn *ssa.Function, fileArg ssa.Valu
 		return true, ""
 	}
 	fileCell := cellOf(r, fileArg)
-	// a goroutine spawned in this function: <-ctx.Done(); file.Close()
-	var closer *ssa.Function
-	var goIn *ssa.Go
-	allInstrs(fn, func(in ssa.Instruction) {
-		g, ok := in.(*ssa.Go)
-		if !ok {
-			return
+	fileOrg := r.Of(fileArg)
+	sameFile := func(cr *Resolver, v ssa.Value) bool {
+		if fileCell != nil && cellOf(cr, v) == fileCell {
+			return true
 		}
-		mc, ok := g.Call.Value.(*ssa.MakeClosure)
-		if !ok {
-			return
-		}
-		cf := mc.Fn.(*ssa.Function)
-		cr := NewResolver(p)
+		o := cr.Of(v)
+		return fileCell == nil && len(o.Alts()) == 1 && len(fileOrg.Alts()) == 1 && sameValue(o, fileOrg)
+	}
+	// closesOnDone: function body cf (interpreted with resolver cr) waits
+	// for Done() of the worker context and then closes the file
+	closesOnDone := func(cf *ssa.Function, cr *Resolver) bool {
 		var doneRecv, closeCall ssa.Instruction
 		allInstrs(cf, func(ci ssa.Instruction) {
 			switch x := ci.(type) {
@@ -511,17 +594,60 @@ func fileClosedOnCancel(j *CtxJudge, p *Prog, fn *ssa.Function, fileArg ssa.Valu
 				}
 			case *ssa.Call:
 				if sc := staticCallee(x.Common()); sc != nil && sc.String() == "(*os.File).Close" {
-					if fileCell != nil && cellOf(cr, x.Call.Args[0]) == fileCell {
+					if sameFile(cr, x.Call.Args[0]) {
 						closeCall = ci
 					}
 				}
 			}
 		})
-		if doneRecv != nil && closeCall != nil && dominatesInstr(doneRecv, closeCall) {
-			closer = cf
-			goIn = g
-		}
-	})
+		return doneRecv != nil && closeCall != nil && dominatesInstr(doneRecv, closeCall)
+	}
+	// a goroutine that does so, started in this function (go func(){...}(),
+	// go closer(ctx, file)) or in a repository helper called from it with
+	// the file (closeWhenDone(ctx, file))
+	var closer *ssa.Function
+	var goIn ssa.Instruction
+	var scan func(in *ssa.Function, cr *Resolver, lift ssa.Instruction, depth int)
+	scan = func(in *ssa.Function, cr *Resolver, lift ssa.Instruction, depth int) {
+		allInstrs(in, func(ins ssa.Instruction) {
+			at0 := lift
+			if at0 == nil {
+				at0 = ins
+			}
+			switch g := ins.(type) {
+			case *ssa.Go:
+				if mc, ok := g.Call.Value.(*ssa.MakeClosure); ok {
+					cf := mc.Fn.(*ssa.Function)
+					ccr := NewResolver(p)
+					for k, v := range cr.Env {
+						ccr.Env[k] = v
+					}
+					if closesOnDone(cf, ccr) {
+						closer, goIn = cf, at0
+					}
+				} else if sc := staticCallee(&g.Call); sc != nil && InRepo(sc) && sc.Blocks != nil {
+					if closesOnDone(sc, cr.Bind(sc, g)) {
+						closer, goIn = sc, at0
+					}
+				}
+			case *ssa.Call:
+				sc := staticCallee(g.Common())
+				if sc == nil || !InRepo(sc) || sc.Blocks == nil || depth >= 2 {
+					return
+				}
+				passes := false
+				for _, a := range g.Call.Args {
+					if sameFile(cr, a) {
+						passes = true
+					}
+				}
+				if passes {
+					scan(sc, cr.Bind(sc, g), at0, depth+1)
+				}
+			}
+		})
+	}
+	scan(fn, r, nil, 0)
 	if closer == nil {
 		return false, "blocking read on a file that no goroutine closes when the worker context is cancelled: an idle pipe keeps the worker blocked after cancellation"
 	}
